@@ -11,7 +11,7 @@ git -C /repo worktree add -q --detach "$wt" HEAD || exit 2
 trap 'git -C /repo worktree remove --force "$wt" >/dev/null 2>&1; rm -rf "$wt"' EXIT
 pkgdir=$(python3 -c "import json,sys; print(json.load(open('$d/agent_meta.json')).get('demo_pkg_dir','.'))")
 run=$(python3 -c "import json,sys; print(json.load(open('$d/agent_meta.json')).get('demo_run',''))")
-name=$(echo "$run" | sed -n 's/.*-run \([^ ]*\).*/\1/p')
+name=$(echo "$run" | sed -n 's/.*-run \([^ ]*\).*/\1/p' | tr -d "'\"")
 [ -z "$name" ] && name=Test
 pkgdir=${pkgdir#./}; [ -z "$pkgdir" ] && pkgdir=.
 cd "$wt"
